@@ -210,8 +210,18 @@ func findFunctionCallViolation(
 			}
 		}
 
-		// Check if it's a method call (obj.Method)
-		typeInfo := util.ExtractTypeInfo(ctx.pass.TypesInfo.TypeOf(fun.X))
+		// Check if it's a method call (obj.Method). The receiver type of the selected method
+		// decides: for a method promoted through an embedded field that is the embedded type,
+		// not the type of obj
+		recvType := ctx.pass.TypesInfo.TypeOf(fun.X)
+		if sel := ctx.pass.TypesInfo.Selections[fun]; sel != nil && sel.Kind() == types.MethodVal {
+			if fn, ok := sel.Obj().(*types.Func); ok {
+				if recv := fn.Type().(*types.Signature).Recv(); recv != nil {
+					recvType = recv.Type()
+				}
+			}
+		}
+		typeInfo := util.ExtractTypeInfo(recvType)
 		if typeInfo != nil {
 			methodName := fun.Sel.Name
 			if ctx.testOnlyMethods.Match(typeInfo.PkgPath, methodName, typeInfo.TypeName) {
